@@ -19,7 +19,11 @@ import (
 
 // HPred mirrors hpred.
 type HPred struct {
-	K   string  `json:"k"` // all ids key mod val or and not (key: one id, given as the key of the model value)
+	K string `json:"k"` // all ids key mod val or and not (key: one id, given as the key of the model value)
+	// skey (writes only): the records are named by a SLICE of 0..2 records (key 0 = a record without
+	// a key) given as the Model of an update / the value of a delete; L = the caller's own condition;
+	// Via = Update | Updates (map) | UpdateColumn
+	Via string `json:"via,omitempty"`
 	IDs []int64 `json:"ids,omitempty"`
 	A   int64   `json:"a,omitempty"`
 	B   int64   `json:"b,omitempty"`
@@ -91,6 +95,11 @@ func (p *HPred) apply(tx *gorm.DB) *gorm.DB {
 
 func (p *HPred) g() string {
 	switch p.K {
+	case "skey":
+		if p.L != nil {
+			return lib.App("HAnd", lib.App("HKeys", lib.ZList(p.IDs)), p.L.g())
+		}
+		return lib.App("HKeys", lib.ZList(p.IDs))
 	case "all":
 		return "HAll"
 	case "ids", "key", "vkey":
@@ -166,6 +175,36 @@ func genHPred(r *lib.Rng, depth int, ids []int64) *HPred {
 	return &HPred{K: "val", A: int64(r.Range(0, 3))}
 }
 
+// genSKey: the records of a write named through a slice of 0, 1 or 2 records (live rows, marked
+// copies, now and then a record without a key), with or without a condition of the caller's.
+func genSKey(r *lib.Rng, ids []int64) *HPred {
+	p := &HPred{K: "skey", IDs: []int64{}, Via: lib.Pick(r, []string{"update", "update", "updates", "updatecolumn"})}
+	n := lib.Pick(r, []int{0, 1, 1, 1, 2, 2})
+	for i := 0; i < n; i++ {
+		if r.Chance(1, 10) {
+			p.IDs = append(p.IDs, 0)
+		} else {
+			p.IDs = append(p.IDs, lib.Pick(r, ids))
+		}
+	}
+	if r.Chance(1, 2) {
+		p.L = genHPred(r, 1, ids)
+		if p.L.K == "all" {
+			p.L = nil
+		}
+	}
+	return p
+}
+
+func (p *HPred) named() bool {
+	for _, i := range p.IDs {
+		if i != 0 {
+			return true
+		}
+	}
+	return false
+}
+
 // genHist draws 3..7 steps over the live rows, their twins (id+100) and the rows it creates.
 func genHist(r *lib.Rng, rows []Row) []HOp {
 	ids := []int64{}
@@ -183,16 +222,31 @@ func genHist(r *lib.Rng, rows []Row) []HOp {
 			next++
 		case 1, 2, 3:
 			p := genHPred(r, 2, ids)
+			if r.Chance(1, 4) {
+				p = genSKey(r, ids)
+			}
 			ops = append(ops, HOp{K: "delete", P: p, T: int64(k)})
 			if r.Chance(1, 3) { // the same Delete once more, later: nothing may change
 				ops = append(ops, HOp{K: "delete", P: p, T: int64(k + 20)})
 			}
 		case 4:
-			ops = append(ops, HOp{K: "udelete", P: genHPred(r, 1, ids)})
+			p := genHPred(r, 1, ids)
+			if r.Chance(1, 4) {
+				p = genSKey(r, ids)
+			}
+			ops = append(ops, HOp{K: "udelete", P: p})
 		case 5, 6:
-			ops = append(ops, HOp{K: "update", P: genHPred(r, 2, ids), V: int64(r.Range(0, 3))})
+			p := genHPred(r, 2, ids)
+			if r.Chance(1, 3) {
+				p = genSKey(r, ids)
+			}
+			ops = append(ops, HOp{K: "update", P: p, V: int64(r.Range(0, 3))})
 		case 7:
-			ops = append(ops, HOp{K: "uupdate", P: genHPred(r, 1, ids), V: int64(r.Range(0, 3))})
+			p := genHPred(r, 1, ids)
+			if r.Chance(1, 4) {
+				p = genSKey(r, ids)
+			}
+			ops = append(ops, HOp{K: "uupdate", P: p, V: int64(r.Range(0, 3))})
 		case 8:
 			ops = append(ops, HOp{K: "find", P: genHPred(r, 2, ids)})
 		default:
@@ -206,7 +260,7 @@ func genHist(r *lib.Rng, rows []Row) []HOp {
 func stampTime(k int64) time.Time { return t2.Add(time.Duration(k) * time.Hour) }
 
 func (e *env) hdump(in Input) ([]HRow, error) {
-	rows, err := e.db.Raw("SELECT id, mark, deleted_at FROM " + whr.Table() + " ORDER BY id").Rows()
+	rows, err := e.db.Raw("SELECT id, mark, deleted_at FROM " + histTable(in) + " ORDER BY id").Rows()
 	if err != nil {
 		return nil, err
 	}
@@ -241,14 +295,55 @@ func (e *env) runHist(in Input, o *Obs) {
 			o.Errs = append(o.Errs, "hist "+w+": "+err.Error())
 		}
 	}
-	fail("reset", e.reset(in, true))
+	if in.HistComposite {
+		fail("reset", e.resetK(in))
+	} else {
+		fail("reset", e.reset(in, true))
+	}
+	newOne := func() interface{} {
+		if in.HistComposite {
+			return &TSK{}
+		}
+		return whr.NewSoftOne(in.Variant)
+	}
+	keyed := func(id int64) interface{} {
+		m := newOne()
+		v := reflect.ValueOf(m).Elem()
+		v.FieldByName("ID").SetInt(id)
+		if f := v.FieldByName("Grp"); f.IsValid() && id != 0 {
+			f.SetInt(grpOf(id))
+		}
+		return m
+	}
+	// a pointer to a slice of records carrying the given keys
+	keyedSlice := func(ids []int64) interface{} {
+		sl := reflect.MakeSlice(reflect.SliceOf(reflect.TypeOf(newOne()).Elem()), 0, len(ids))
+		for _, id := range ids {
+			sl = reflect.Append(sl, reflect.ValueOf(keyed(id)).Elem())
+		}
+		p := reflect.New(sl.Type())
+		p.Elem().Set(sl)
+		return p.Interface()
+	}
 	var err error
 	o.Hist.Init, err = e.hdump(in)
 	fail("dump", err)
 	o.Hist.Obs, o.Hist.States = [][]int64{}, [][]HRow{}
 	for _, op := range in.Hist {
 		// (a write that names its record by key needs no AllowGlobalUpdate: it runs without it)
-		byKey := op.P != nil && (op.P.K == "key" || op.P.K == "vkey")
+		byKey := op.P != nil && (op.P.K == "key" || op.P.K == "vkey" || (op.P.K == "skey" && op.P.named()))
+		sliceBase := func(b *gorm.DB) *gorm.DB {
+			// (the caller's condition as ONE unit: after Where(a).Or(b) gorm joins the key condition of a
+			// Delete value / an Unscoped update to the last OR alternative, `a OR b AND key IN (..)`,
+			// with or without soft delete - not this property's business)
+			if op.P.L != nil && op.P.L.K == "or" {
+				return b.Where(op.P.L.sql())
+			}
+			if op.P.L != nil {
+				return op.P.L.apply(b)
+			}
+			return b
+		}
 		base := e.db.Session(&gorm.Session{AllowGlobalUpdate: !byKey, SkipHooks: in.SkipHooks, NowFunc: func() time.Time { return stampTime(op.T) }})
 		if op.K == "udelete" || op.K == "uupdate" || op.K == "ufind" {
 			base = base.Unscoped()
@@ -256,9 +351,8 @@ func (e *env) runHist(in Input, o *Obs) {
 		var ob []int64
 		switch op.K {
 		case "create":
-			one := whr.NewSoftOne(in.Variant)
+			one := keyed(op.I)
 			v := reflect.ValueOf(one).Elem()
-			v.FieldByName("ID").SetInt(op.I)
 			v.FieldByName("Mark").SetInt(op.V)
 			v.FieldByName("Name").SetString("h")
 			r := base.Create(one)
@@ -268,34 +362,51 @@ func (e *env) runHist(in Input, o *Obs) {
 			var r *gorm.DB
 			if op.P.K == "key" {
 				// the record is named by the Model value, the value given to Delete is empty
-				m := whr.NewSoftOne(in.Variant)
-				reflect.ValueOf(m).Elem().FieldByName("ID").SetInt(op.P.IDs[0])
-				r = base.Model(m).Delete(whr.NewSoftOne(in.Variant))
+				r = base.Model(keyed(op.P.IDs[0])).Delete(newOne())
 			} else if op.P.K == "vkey" {
 				// the value given to Delete carries the key
-				m := whr.NewSoftOne(in.Variant)
-				reflect.ValueOf(m).Elem().FieldByName("ID").SetInt(op.P.IDs[0])
-				r = base.Delete(m)
+				r = base.Delete(keyed(op.P.IDs[0]))
+			} else if op.P.K == "skey" {
+				// the value given to Delete is a slice of records
+				r = sliceBase(base).Delete(keyedSlice(op.P.IDs))
 			} else {
-				r = op.P.apply(base).Delete(whr.NewSoftOne(in.Variant))
+				r = op.P.apply(base).Delete(newOne())
 			}
 			fail(op.K, r.Error)
 			ob = []int64{r.RowsAffected}
 		case "update", "uupdate":
 			var r *gorm.DB
 			if op.P.K == "key" || op.P.K == "vkey" {
-				m := whr.NewSoftOne(in.Variant)
-				reflect.ValueOf(m).Elem().FieldByName("ID").SetInt(op.P.IDs[0])
-				r = base.Model(m).Update("mark", op.V)
+				r = base.Model(keyed(op.P.IDs[0])).Update("mark", op.V)
+			} else if op.P.K == "skey" {
+				// the Model is a slice of records
+				tx := sliceBase(base).Model(keyedSlice(op.P.IDs))
+				switch op.P.Via {
+				case "updates":
+					r = tx.Updates(map[string]interface{}{"mark": op.V})
+				case "updatecolumn":
+					r = tx.UpdateColumn("mark", op.V)
+				default:
+					r = tx.Update("mark", op.V)
+				}
 			} else {
-				r = op.P.apply(base).Model(whr.NewSoftOne(in.Variant)).Update("mark", op.V)
+				r = op.P.apply(base).Model(newOne()).Update("mark", op.V)
 			}
 			fail(op.K, r.Error)
 			ob = []int64{r.RowsAffected}
 		default:
-			dst := whr.NewSoftSlice(in.Variant)
-			fail(op.K, op.P.apply(base).Find(dst).Error)
-			ob = whr.IDsOf(dst)
+			if in.HistComposite {
+				var dst []TSK
+				fail(op.K, op.P.apply(base).Find(&dst).Error)
+				ob = []int64{}
+				for _, x := range dst {
+					ob = append(ob, x.ID)
+				}
+			} else {
+				dst := whr.NewSoftSlice(in.Variant)
+				fail(op.K, op.P.apply(base).Find(dst).Error)
+				ob = whr.IDsOf(dst)
+			}
 			sort.Slice(ob, func(i, j int) bool { return ob[i] < ob[j] })
 		}
 		o.Hist.Obs = append(o.Hist.Obs, ob)
@@ -308,4 +419,45 @@ func (e *env) runHist(in Input, o *Obs) {
 func gHist(in Input, o Obs) []string {
 	return []string{gHState(o.Hist.Init), lib.ListOf(in.Hist, func(op HOp) string { return op.g() }),
 		lib.ListOf(o.Hist.Obs, lib.ZList), lib.ListOf(o.Hist.States, gHState)}
+}
+
+// TSK: the soft-delete model with a COMPOSITE primary key (id, grp); grp is a function of id, so a
+// row is still identified by its id and a marked copy (id + 100) has the grp of its original.
+type TSK struct {
+	ID        int64 `gorm:"primaryKey;autoIncrement:false"`
+	Grp       int64 `gorm:"primaryKey;autoIncrement:false"`
+	Age       int64
+	Name      string
+	Nick      *string
+	Mark      int64
+	DeletedAt gorm.DeletedAt
+}
+
+func (TSK) TableName() string { return "tsk" }
+
+func grpOf(id int64) int64 { return id%2 + 1 }
+
+func histTable(in Input) string {
+	if in.HistComposite {
+		return "tsk"
+	}
+	return whr.Table()
+}
+
+func (e *env) resetK(in Input) error {
+	if err := e.db.Exec("DELETE FROM tsk").Error; err != nil {
+		return err
+	}
+	for _, r := range in.Rows {
+		for _, tw := range []bool{false, true} {
+			id, del := r.ID, interface{}(nil)
+			if tw {
+				id, del = r.ID+100, t1
+			}
+			if err := e.db.Exec("INSERT INTO tsk (id, grp, age, name, nick, mark, deleted_at) VALUES (?,?,?,?,?,0,?)", id, grpOf(id), r.Age, r.Name, r.Nick, del).Error; err != nil {
+				return err
+			}
+		}
+	}
+	return nil
 }
